@@ -40,7 +40,7 @@ CLAUSES = ["exit-wave:values", "exit-wave:total", "measurement:values", "window-
            "lazy-equals-eager:values", "ctf-coefficients-unit-norm", "aberrated-exit-wave:values",
            "aberrated-window-probe:values", "aberrated-measurement:values"]
 QUICK = dict(n=28, time=40)
-THOROUGH = dict(n=800, time=400, shards=16)
+THOROUGH = dict(n=5210, time=480, shards=16)
 
 ABERRATIONS = ["C10", "C12", "C21", "C23", "C30", "C32", "C34", "C41", "C43", "C45", "C50", "C52", "C54", "C56"]
 ANGLE_OF = {"C12": "phi12", "C21": "phi21", "C23": "phi23", "C32": "phi32", "C34": "phi34", "C41": "phi41",
